@@ -541,7 +541,16 @@ class Type4ATag(Type4Tag):
         rats_res = self.clf.exchange(rats_cmd, timeout=0.03)
         log.debug("rcvd RATS response: {0}".format(hexlify(rats_res).decode()))
 
-        fsci, fwti = rats_res[1] & 0x0F, rats_res[3] >> 4
+        # The format byte T0 is optional and tells which of the interface
+        # bytes TA(1), TB(1), TC(1) follow. Without T0 the frame size is 32
+        # byte (FSCI 2), without TB(1) the waiting time integer is 4.
+        fsci, fwti = 2, 4
+        if len(rats_res) > 1 and rats_res[0] > 1:
+            t0 = rats_res[1]
+            fsci = t0 & 0x0F
+            tb_index = 2 + (t0 >> 4 & 1)
+            if t0 & 0x20 and len(rats_res) > tb_index:
+                fwti = rats_res[tb_index] >> 4
         if fsci > 8:
             log.warning("FSCI with RFU value in RATS_RES")
             fsci = 8
